@@ -45,6 +45,19 @@ def _getitem(obj: Any, key: object, default: object = None) -> Any:
         return default
 
 
+def _missing_last(value: object) -> tuple[bool, object]:
+    """Sort key that sends missing values to the end, whatever the others are.
+
+    The stand-in for a missing value is a string. It can't be compared to a number.
+    """
+    return (True, "") if value is _MAX_CH else (False, value)
+
+
+def _last_if_missing(index: int) -> Any:
+    """Return a sort key function for tuples holding the value at _index_."""
+    return lambda item: _missing_last(item[index])
+
+
 def _lower(obj: Any) -> str:
     """Helper for the sort filter."""
     try:
@@ -97,11 +110,11 @@ class SortFilter:
             items: list[tuple[object, object]] = []
             for item, rv in zip(left, key.map(context, left), strict=True):
                 items.append((item, _MAX_CH if is_undefined(rv) else rv))
-            return [item[0] for item in sorted(items, key=itemgetter(1))]
+            return [item[0] for item in sorted(items, key=_last_if_missing(1))]
 
         if key:
             key_func = partial(_getitem, key=str(key), default=_MAX_CH)
-            return sorted(left, key=key_func)
+            return sorted(left, key=lambda obj: _missing_last(key_func(obj)))
 
         try:
             return sorted(left)
